@@ -75,6 +75,103 @@ def c08(tier, seed):
              "is a distinct case; TLC recomputes all w*h pixels from Yuv!Convert" % (wmax, hmax))
 
 
+# =========================================================================== C09 / C16
+def _img(w, h, s, data):
+    return {"op": "deblock", "w": w, "s": s, "data": data}
+
+
+def _lane_images(vals, strengths, rng):
+    """Embed every 4-tuple over `vals` in a horizontal-edge quadruple (image 15 x 10: columns 0..7 are
+    vector lanes, 8..14 scalar remainder) and in a vertical-edge quadruple (image 10 x 9: rows 0..7 form
+    the vector group, row 8 is a scalar remainder row); every tuple is placed twice, shifted by 8
+    positions, so that it meets both kinds of lane."""
+    tuples = [(a, b, c, d) for a in vals for b in vals for c in vals for d in vals]
+    cmds = []
+    for s in strengths:
+        for shift in (0, 8):
+            ts = tuples[shift:] + tuples[:shift]
+            # horizontal edge at y = 8 : rows 6..9 carry A..D, one tuple per column
+            for i in range(0, len(ts), 15):
+                grp = ts[i:i + 15]
+                w, h = 15, 10
+                img = [rng.randrange(256) for _ in range(w * h)]
+                for x, t in enumerate(grp):
+                    for j in range(4):
+                        img[(6 + j) * w + x] = t[j]
+                cmds.append(_img(w, h, s, img))
+            # vertical edge at x = 8 : columns 6..9 carry A..D, one tuple per row; h = 9 has no horizontal edge
+            for i in range(0, len(ts), 9):
+                grp = ts[i:i + 9]
+                w, h = 10, 9
+                img = [rng.randrange(256) for _ in range(w * h)]
+                for y, t in enumerate(grp):
+                    for j in range(4):
+                        img[y * w + 6 + j] = t[j]
+                cmds.append(_img(w, h, s, img))
+    return cmds, len(tuples)
+
+
+@plan("C09")
+def c09(tier, seed):
+    run = Run("C09", tier, seed)
+    rng = random.Random(seed)
+    run.model_check_sharded("MCDeblock", nshards=16)
+    if tier == "quick":
+        vals = [0, 1, 11, 20, 64, 127, 128, 201, 254, 255]
+        strengths = [1, 4, 9, 12]
+        wmax, hmax, sset = 40, 40, [1, 4, 12]
+    else:
+        vals = [0, 1, 2, 11, 20, 31, 64, 100, 127, 128, 129, 201, 240, 253, 254, 255]
+        strengths = list(range(1, 13))
+        wmax, hmax, sset = 40, 40, list(range(1, 13))
+    cmds, ntuples = _lane_images(vals, strengths, rng)
+    n_lane = len(cmds)
+    for w in range(1, wmax + 1):
+        for h in range(0, hmax + 1):
+            for s in sset:
+                cmds.append(_img(w, h, s, rbytes(rng, w * h)))
+                if (w + h + s) % 3 == 0:
+                    cmds.append(_img(w, h, s, [255 * ((x + y) % 2) for y in range(h) for x in range(w)]))
+    # a few larger images with several vector groups in both directions
+    for (w, h) in [(64, 48), (83, 35), (35, 83)] + ([(176, 144), (177, 145)] if tier == "thorough" else []):
+        cmds.append(_img(w, h, rng.randrange(1, 13), rbytes(rng, w * h)))
+    rng.shuffle(cmds)
+    run.drive_and_validate(cmds, "TraceDeblock", sample=3)
+    run.evaluations = len(cmds)
+    run.nontrivial = len(cmds)
+    run.notes["kernel_tuples_x_strengths_placed_in_vector_and_scalar_lanes"] = ntuples * len(strengths)
+    run.notes["lane_images"] = n_lane
+    return run.finish(
+        rule="(a) every 4-tuple over %d stratified sample values x %d strengths embedded in a horizontal-edge and in a "
+             "vertical-edge quadruple, each once in a vector lane and once in a scalar-remainder lane; (b) every size "
+             "1..%d x 0..%d x strengths %s with seeded random content and alternating 0/255 content; (c) larger images. "
+             "TLC recomputes every output sample with Deblock!DeblockImage; images are distinct by construction."
+             % (len(vals), len(strengths), wmax, hmax, sset))
+
+
+@plan("C16")
+def c16(tier, seed):
+    run = Run("C16", tier, seed)
+    rng = random.Random(seed)
+    run.model_check_sharded("MCDeblock", nshards=16)
+    wmax, hmax = (24, 24) if tier == "quick" else (48, 48)
+    cmds = [{"op": "strength_table"}]
+    for w in range(1, wmax + 1):
+        for h in range(0, hmax + 1):
+            for s in range(1, 13):
+                data = [0] * (w * h) if (w + h + s) % 2 == 0 else rbytes(rng, w * h)
+                cmds.append(_img(w, h, s, data))
+    rng.shuffle(cmds)
+    run.drive_and_validate(cmds, "TraceDeblock", sample=3)
+    run.evaluations = len(cmds)
+    run.nontrivial = len(cmds)
+    run.exhaustive = True
+    return run.finish(
+        rule="exhaustive over widths 1..%d x heights 0..%d x strengths 1..12 (content alternately all-zero and seeded "
+             "random) plus the published QUANT_TO_STRENGTH table; the outcome must be a return equal to "
+             "Deblock!DeblockImage and the table must equal Table J.2 as transcribed in Deblock!TableJ2" % (wmax, hmax))
+
+
 # =========================================================================== replay
 def replay(pid, path, seed):
     rec = json.load(open(path))
@@ -85,4 +182,4 @@ def replay(pid, path, seed):
     return run.finish(rule="replay of %s" % path)
 
 
-REPLAY_MODULE = {"C07": "TraceYuv", "C08": "TraceYuv"}
+REPLAY_MODULE = {"C07": "TraceYuv", "C08": "TraceYuv", "C09": "TraceDeblock", "C16": "TraceDeblock"}
